@@ -109,11 +109,11 @@ class Path:
     def feasible(self):
         return self.solver.check() != z3.unsat
 
-    def concretize_int(self, n, lo=-64, hi=4096):
+    def concretize_int(self, n, lo=-64, hi=4096, depth=0):
         """fork over the values of a symbolic integer that is used as an index (bounded enumeration; the bound is
         an obligation elsewhere, so exceeding it is reported as Unsupported rather than silently dropped)"""
-        m = None
-        v = lo
+        if depth > 40:
+            raise sym.Unsupported(f'symbolic integer {n.t} used as a concrete value has too many possible values')
         # binary-free simple search: ask the solver for a model, fork on (n == value)
         r = self.solver.check()
         if r != z3.sat:
@@ -123,7 +123,7 @@ class Path:
         if sym.SBool(n.t == val).__bool__():
             return val
         # the other branch: recurse (a different value)
-        return self.concretize_int(n, lo, hi)
+        return self.concretize_int(n, lo, hi, depth + 1)
 
 
 def explore(run, max_paths=20000):
